@@ -593,11 +593,8 @@ impl State {
                         bad!("node {id}: height {h} is not above its defining bind's height {sh}");
                     }
                 }
-                None => {
-                    if n.is_valid() {
-                        bad!("node {id}: necessary and valid but its defining bind is gone");
-                    }
-                }
+                // the bind was dropped: it can never run again and constrains nothing
+                None => {}
             }
             if n.is_valid() {
                 let children = n.verif_children();
